@@ -201,9 +201,10 @@ SubmitRecord MempoolSim::SubmitTx(const CTransactionRef& tx, bool test_accept, i
     if (cfg.snapshots) {
         r.before = Snapshot();
         LOCK2(cs_main, pool().cs);
-        r.diagram_before = pool().GetFeerateDiagram();
+        // usage first: GetFeerateDiagram() relinearises clusters and thereby changes DynamicMemoryUsage()
         r.usage_before = pool().DynamicMemoryUsage();
         r.minfee_before = pool().GetMinFee();
+        r.diagram_before = pool().GetFeerateDiagram();
     }
     {
         LOCK(cs_main);
@@ -219,9 +220,9 @@ SubmitRecord MempoolSim::SubmitTx(const CTransactionRef& tx, bool test_accept, i
     if (cfg.snapshots) {
         r.after = Snapshot();
         LOCK2(cs_main, pool().cs);
-        r.diagram_after = pool().GetFeerateDiagram();
         r.usage_after = pool().DynamicMemoryUsage();
         r.minfee_after = pool().GetMinFee();
+        r.diagram_after = pool().GetFeerateDiagram();
     }
     const char* rt = r.result_type == MempoolAcceptResult::ResultType::VALID ? "VALID" : r.result_type == MempoolAcceptResult::ResultType::INVALID ? "INVALID" : r.result_type == MempoolAcceptResult::ResultType::MEMPOOL_ENTRY ? "MEMPOOL_ENTRY" : "DIFFERENT_WITNESS";
     ctx.evf("submit %s shape=%s test=%d -> %s %s replaced=%zu pool=%lu", tx->GetHash().ToString().substr(0, 10).c_str(), kShapeNames[shape % TS_NSHAPES], test_accept, rt, r.reject_reason.c_str(), r.replaced.size(), pool().size());
@@ -246,9 +247,10 @@ SubmitRecord MempoolSim::SubmitPackage(const std::vector<CTransactionRef>& txs, 
     if (cfg.snapshots) {
         r.before = Snapshot();
         LOCK2(cs_main, pool().cs);
-        r.diagram_before = pool().GetFeerateDiagram();
+        // usage first: GetFeerateDiagram() relinearises clusters and thereby changes DynamicMemoryUsage()
         r.usage_before = pool().DynamicMemoryUsage();
         r.minfee_before = pool().GetMinFee();
+        r.diagram_before = pool().GetFeerateDiagram();
     }
     {
         LOCK(cs_main);
@@ -265,9 +267,9 @@ SubmitRecord MempoolSim::SubmitPackage(const std::vector<CTransactionRef>& txs, 
     if (cfg.snapshots) {
         r.after = Snapshot();
         LOCK2(cs_main, pool().cs);
-        r.diagram_after = pool().GetFeerateDiagram();
         r.usage_after = pool().DynamicMemoryUsage();
         r.minfee_after = pool().GetMinFee();
+        r.diagram_after = pool().GetFeerateDiagram();
     }
     size_t nvalid = 0;
     for (auto& [w, tr] : r.pkg_tx_results)
